@@ -38,9 +38,10 @@ Requirements for each change:
 Procedure for change k (k = 1, 2):
   1. read the source, design the change, edit files under src/taskchain;
   2. run the full test suite -> must still be 128 passed;
-  3. run demo<k>.py -> must fail; then `git stash` (stashes only tracked src edits; demo files are untracked and stay),
-     run demo<k>.py -> must pass on the unchanged code; `git stash pop`;
-  4. `git diff -- src > {wt}/patch<k>.diff`; then `git checkout -- src` to return to the unchanged tree before the next change.
+  3. run demo<k>.py -> must fail;
+  4. `git diff -- src > {wt}/patch<k>.diff`; then `git checkout -- src` to return to the unchanged tree and run demo<k>.py
+     again -> must pass on the unchanged code. (Do NOT use `git stash`: the stash is shared with other worktrees.)
+     To re-apply a change use `git apply {wt}/patch<k>.diff`.
 Finally write {wt}/NOTES.md with, per change: which part of the property it breaks, what exactly is needed for it to
 manifest, and the commands you ran with their outcomes. Leave the worktree with src unchanged (patches only in the
 .diff files). In your final answer, list the files you produced and one paragraph per change.""")
